@@ -3,7 +3,7 @@ import importlib
 import sys
 
 def main():
-    for t in ("t1_funfit", "t2_tables"):
+    for t in ("t1_funfit", "t2_tables", "t3_vector"):
         try:
             mod = importlib.import_module(f"harness.{t}")
         except ModuleNotFoundError:
